@@ -38,5 +38,13 @@ meta = {
     "demonstration": [f for f in os.listdir(dst) if f.startswith("zz_") or f == "main.go"],
     "checks_run_against_it (tools/eval_seeded.sh)": detected,
 }
-json.dump(meta, open(os.path.join(dst, "meta.json"), "w"), indent=1)
+mp = os.path.join(dst, "meta.json")
+if os.path.exists(mp):
+    try:
+        old = json.load(open(mp))
+        if "history" in old:
+            meta["history"] = old["history"]
+    except Exception:
+        pass
+json.dump(meta, open(mp, "w"), indent=1)
 print(name, "saved;", "DETECTED" if any(d["exit_code"] == 1 for d in detected) else "MISSED")
